@@ -36,6 +36,8 @@ MANIFEST = {
 
 
 def run(ctx):
+    from rules.common import check_sentinel_default as _csd
+    _csd(ctx, ctx.program, ctx.program.func('dictutils.OneToOne.pop'), recv=ctx.program.cls('dictutils.OneToOne'))
     from rules.common import require_fields
     require_fields(ctx.program, 'dictutils.OneToOne', ['inv'])
     require_fields(ctx.program, 'dictutils.ManyToMany', ['data', 'inv'])
